@@ -553,6 +553,7 @@ cpc_sketch_alloc<A> cpc_sketch_alloc<A>::deserialize(std::istream& is, uint64_t 
       kxp = read<double>(is);
       hip_est_accum = read<double>(is);
     }
+    if (!is.good()) throw std::runtime_error("error reading from std::istream");
     if (has_window) {
       compressed.window_data.resize(compressed.window_data_words);
       read(is, compressed.window_data.data(), compressed.window_data_words * sizeof(uint32_t));
